@@ -850,6 +850,72 @@ pub fn lookup_cost(p: &Program, r: &RunResult, checked: &mut usize, max_seen: &m
     out
 }
 
+/// C14 (concurrent half, growth side): under any schedule the table never grows beyond what
+/// the keys the program can ever hold at once justify. Applies to programs with the identity hash
+/// (bin = key & (len - 1)), no reservations, and a key universe that cannot overfill a bin of the
+/// initial table: the table may double only while the number of distinct keys of the universe -
+/// an upper bound of the entry count at any instant - reaches three quarters of its length.
+pub fn growth_justified(p: &Program, r: &RunResult) -> Vec<Violation> {
+    let mut out = Vec::new();
+    if p.cfg.hash != crate::types::HashKind::Identity {
+        return out;
+    }
+    // (`extend` reserves room for half of its size hint before inserting, and how much a
+    // reservation provides is `try_presize`'s business, judged in the single-client half)
+    if p.threads.iter().flatten().any(|o| matches!(o, Op::Reserve(_) | Op::Extend(_) | Op::ParExtend(..) | Op::ParCollect(..))) {
+        return out;
+    }
+    let Some(rep) = &r.quiescent.inspect else { return out };
+    let init = if r.initial_table_len > 0 {
+        r.initial_table_len
+    } else {
+        match r.outcome.events.iter().find(|e| e.ev == Ev::TableInit) {
+            Some(e) => e.a,
+            None => return out, // never allocated
+        }
+    };
+    let uni = crate::exec::universe(p);
+    let mut load = vec![0usize; init];
+    for k in &uni {
+        load[(*k as usize) & (init - 1)] += 1;
+    }
+    if load.iter().any(|&l| l >= 8) {
+        return out; // the overfull-bin rule may ask for growth on its own
+    }
+    // The entry count the growth rule looks at is flurry's counter, which a removal decrements
+    // after it has unlinked the entry (and released the bin): a key can be re-inserted in that
+    // window, so the counter may exceed the number of entries present by one per removal in
+    // flight, i.e. by at most one per thread that removes. (clear/retain settle their whole tally
+    // at the end: not judged here.)
+    if p.threads.iter().flatten().any(|o| matches!(o, Op::Clear | Op::Retain(_) | Op::RetainForce(_))) {
+        return out;
+    }
+    // (on a set every `Compute` operation is executed as `remove`)
+    let set = p.cfg.set;
+    let removers = p.threads.iter().filter(|t| t.iter().any(|o| matches!(o, Op::Remove(_) | Op::RemoveEntry(_) | Op::Compute(_, CFn::Remove, _)) || (set && matches!(o, Op::Compute(..))))).count();
+    let bound = uni.len() + removers;
+    let mut allowed = init;
+    while bound >= allowed - (allowed >> 2) {
+        allowed <<= 1;
+    }
+    if rep.table_len > allowed {
+        out.push(v(
+            "unjustified-growth",
+            format!(
+                "the table grew from {} to {} bins although the entry count can never exceed {} ({} distinct keys + {} removals in flight; {} bins suffice: three quarters of that is {})",
+                init,
+                rep.table_len,
+                bound,
+                uni.len(),
+                removers,
+                allowed,
+                allowed - (allowed >> 2)
+            ),
+        ));
+    }
+    out
+}
+
 /// C14 (concurrent half): removals never make the table grow; lengths only ever double.
 pub fn no_growth_on_removal(p: &Program, r: &RunResult) -> Vec<Violation> {
     let mut out = Vec::new();
@@ -861,8 +927,11 @@ pub fn no_growth_on_removal(p: &Program, r: &RunResult) -> Vec<Violation> {
             Op::Remove(..) | Op::RemoveEntry(..) | Op::Compute(_, CFn::Remove, _) | Op::Retain(..) | Op::RetainForce(..) | Op::Clear | Op::Get(..) | Op::Contains(..) | Op::GetKV(..) | Op::Len | Op::EqSelf | Op::IterAll(..) | Op::IterOpen(..) | Op::IterNext(..) | Op::IterClose | Op::Pin | Op::Unpin | Op::Refresh | Op::Flush | Op::Recheck
         )
     });
+    // (site events are not attributed to a collection: a `clone()` builds - and may resize - a
+    // table of its own, so for programs that clone only the target's table length is judged)
+    let clones = p.threads.iter().flatten().any(|o| matches!(o, Op::IterAll(IterKind::Clone)));
     if removal_only {
-        for e in &r.outcome.events {
+        for e in r.outcome.events.iter().filter(|_| !clones) {
             if matches!(e.ev, Ev::ResizeStarted | Ev::Published) {
                 out.push(v(
                     "growth-on-removal",
